@@ -86,6 +86,9 @@ class StepBudgetExceeded(BaseException):
     """not an Exception: `Parser.call_function` / `parse` must not swallow it"""
 
 
+_HANGS = [0]
+
+
 def budgeted(f):
     """run f() counting line events; -> ('ok', value) | ('hang', steps)"""
     count = [0]
@@ -104,7 +107,8 @@ def budgeted(f):
         import signal
         # processor time of this process, not wall-clock: a loaded machine must not turn a fast call into a "hang"
         old_handler = signal.signal(signal.SIGPROF, on_alarm)
-        signal.setitimer(signal.ITIMER_PROF, WALL)
+        # once five calls have not returned the verdict stands: the remaining ones get a tenth of the budget
+        signal.setitimer(signal.ITIMER_PROF, WALL if _HANGS[0] < 5 else WALL / 10.0)
         armed = True
     except (ValueError, AttributeError, ImportError):
         pass          # not the main thread / no SIGALRM: line events only
@@ -112,6 +116,7 @@ def budgeted(f):
     try:
         return ('ok', f())
     except StepBudgetExceeded:
+        _HANGS[0] += 1
         return ('hang', count[0])
     finally:
         sys.settrace(old)
